@@ -60,6 +60,7 @@ def sym_region(E, ndim, prefix='r', dims=None, units=None, tf=None, assume=None)
     r = Obj('Region', {'_pmin': Vec(pmin), '_pmax': Vec(pmax),
                        '_dims': tuple(dims or DIMS[:ndim]), '_units': tuple(units or UNITS[:ndim]),
                        '_tolerance_factor': tf})
+    r.modelled_state = True
     return r, assume
 
 
@@ -116,6 +117,9 @@ def sym_mesh(E, ndim, prefix='m', nsub=0, bc='', assume=None, dims=None, units=N
                                          '_dims': dims, '_units': units, '_tolerance_factor': tf})
         ghost[f'sr{si}'] = (a, b)
     m = Obj('Mesh', {'_region': reg, '_n': Vec(n, 'int'), '_bc': bc, '_subregions': subs})
+    m.modelled_state = reg.modelled_state = True
+    for sr in subs.values():
+        sr.modelled_state = True
     m.ghost = {'cell': cell, 'sub': ghost}
     return m, assume
 
